@@ -135,6 +135,22 @@ class SymbolicExpression(Generic[T], ABC):
         self._seen_parent_values_by_parent_ = {}
         self._eval_parent_ = None
 
+    def _clear_result_caches_(self) -> None:
+        """
+        Clear the result caches that persist across evaluations, of this symbolic expression and its children.
+        This is needed when an evaluation did not run to completion, because the caches record which bindings they
+        cover while the covered results are still being produced.
+        """
+        self._clear_only_my_result_caches_()
+        for child in self._children_:
+            child._clear_result_caches_()
+
+    def _clear_only_my_result_caches_(self) -> None:
+        """
+        Clear only the result caches of this symbolic expression.
+        """
+        ...
+
     @abstractmethod
     def _evaluate__(self, sources: Optional[Dict[int, HashedValue]] = None, yield_when_false: bool = False) -> Iterable[Dict[int, HashedValue]]:
         """
@@ -478,6 +494,10 @@ class The(ResultQuantifier[T]):
             with symbolic_mode(mode=None):
                 result = self._evaluate_()
                 return self._process_result_(result)
+        except BaseException:
+            # the evaluation did not run to completion, so what the result caches recorded as covered is incomplete.
+            self._clear_result_caches_()
+            raise
         finally:
             # also when no solution or multiple solutions were found, or user code raised.
             self._reset_cache_()
@@ -534,6 +554,11 @@ class An(ResultQuantifier[T]):
                         break
                     result = self._process_result_(result)
                 yield result
+        except BaseException:
+            # the evaluation did not run to completion (the iterator was closed or dropped, or user code raised),
+            # so what the result caches recorded as covered is incomplete.
+            self._clear_result_caches_()
+            raise
         finally:
             results.close()
             # also when the iterator is closed or dropped before it is exhausted, or user code raised.
@@ -1275,6 +1300,11 @@ class BinaryOperator(SymbolicExpression, ABC):
         self.left, self.right = self._update_children_(self.left, self.right)
         combined_vars = self.left._unique_variables_.union(self.right._unique_variables_)
         self._cache_.keys = [v.id_ for v in combined_vars.filter(lambda v: not isinstance(v.value, Literal))]
+
+    def _clear_only_my_result_caches_(self) -> None:
+        for cache in vars(self).values():
+            if isinstance(cache, IndexedCache):
+                cache.clear()
 
     def yield_final_output_from_cache(self, variables_sources, cache: Optional[IndexedCache] = None) \
             -> Iterable[Dict[int, HashedValue]]:
